@@ -1,9 +1,9 @@
 SPECIFICATION Spec
 CONSTANTS
   MaxSeqLen = 4
-  QCpls = {0, 1, 2, 3}
+  QCpls = {0, 1, 2, 3, 5}
   QOffs = {33, 64}
-  Second = TRUE
+  Second = FALSE
   FCpls = {1, 2, 3, 80}
 INVARIANT InvRoundTrip
 INVARIANT InvKnownBadExact
